@@ -57,6 +57,16 @@ func (r *msgReceiver) ReadFully() (message []byte, metadata map[string][]byte, e
 
 	msgSize := int(binary.BigEndian.Uint64(firstChunk.Content))
 
+	if msgSize < 0 {
+		return nil, firstChunk.Metadata, errors.New(ErrMaxTxValuesLenExceeded)
+	}
+
+	if msgSize > MaxTxValueLen {
+		// the announced size is not trusted: memory is allocated as chunks are received
+		b, err := r.readFullyGrowing(firstChunk.Content[8:], msgSize)
+		return b, firstChunk.Metadata, err
+	}
+
 	b := make([]byte, msgSize)
 	read := 0
 
@@ -81,6 +91,31 @@ func (r *msgReceiver) ReadFully() (message []byte, metadata map[string][]byte, e
 	}
 
 	return b, firstChunk.Metadata, nil
+}
+
+// readFullyGrowing reads a message of the announced size without allocating it upfront
+func (r *msgReceiver) readFullyGrowing(content []byte, msgSize int) ([]byte, error) {
+	var b bytes.Buffer
+
+	b.Write(content)
+
+	for b.Len() < msgSize {
+		chunk, err := r.stream.Recv()
+		if err == io.EOF {
+			break
+		}
+		if err != nil {
+			return b.Bytes(), err
+		}
+
+		b.Write(chunk.Content)
+	}
+
+	if b.Len() < msgSize {
+		return b.Bytes(), io.EOF
+	}
+
+	return b.Bytes()[:msgSize], nil
 }
 
 // Read read fill message with received data and return the number of read bytes or error. If no message is present it returns 0 and io.EOF. If the message is complete it returns 0 and nil, in that case successive calls to Read will returns a new message.
@@ -115,11 +150,18 @@ func (r *msgReceiver) Read(data []byte) (n int, err error) {
 		// trailer (message length) initialization
 		if r.tl == 0 {
 			trailer := make([]byte, 8)
+			if r.b.Len() > 0 && r.b.Len() < len(trailer) {
+				return 0, errors.New(ErrChunkTooSmall)
+			}
 			_, err = r.b.Read(trailer)
 			if err != nil {
 				return 0, err
 			}
 			r.tl = int(binary.BigEndian.Uint64(trailer))
+			if r.tl < 0 {
+				r.tl = 0
+				return 0, errors.New(ErrMaxValueLenExceeded)
+			}
 		}
 
 		// no more data in stream but buffer is not enough large to contains the expected value
